@@ -1,5 +1,6 @@
 import WcModel.Properties.C01
 import WcModel.Properties.C01faithful
+import WcModel.Properties.C01read
 #print axioms WcModel.C01.wrap_fullmatch
 #print axioms WcModel.C01.C01_partial
 #print axioms WcModel.C01.oracle_is_spec
@@ -19,3 +20,11 @@ import WcModel.Properties.C01faithful
 #print axioms WcModel.C01.C01_faithful_spec
 #print axioms WcModel.C01.faithful_nonvacuous
 #print axioms WcModel.C01.ok_excludes
+#print axioms WcModel.C01.C01_read
+#print axioms WcModel.C01.ofFlags_globstar0
+#print axioms WcModel.C01.C01_read_code
+#print axioms WcModel.C01.C01_read_spec
+#print axioms WcModel.C01.read_nonvacuous
+#print axioms WcModel.C01.read_covers_old_exclusions
+#print axioms WcModel.C01.globstar0_needed
+#print axioms WcModel.C01.cfgG_FnX
